@@ -1,5 +1,5 @@
 (* C03 — property theorems only. *)
-From SwayV Require Import Base.Util C03.Model C03.Spec C03.Proofs.
+From SwayV Require Import Base.Util C03.Model C03.Spec C03.Proofs C03.ModelVal C03.ProofsDce C03.ProofsCfg.
 Open Scope N_scope.
 
 (* Function deduplication's equivalence: if the structural comparison modulo renaming of values
@@ -25,6 +25,60 @@ Theorem C03_canon_preserves :
     behaves St V cval sem truthy halt fuel (canon f) args s = behaves St V cval sem truthy halt fuel f args s.
 Proof. exact behaves_canon. Qed.
 Print Assumptions C03_canon_preserves.
+
+(* Dead-code elimination validator: if `after` is `before` minus instructions whose labels are in `pure` and
+   whose results are not used any more, then — for every interpretation in which the `pure` labels are
+   side-effect free (always yield a value, never change the state) — `after` behaves exactly like `before`
+   whenever `before` does not get stuck on an undefined value. *)
+Theorem C03_dce_validator_sound :
+  forall (St V : Type) (cval : N -> V) (sem : N -> list V -> St -> option (St * V))
+         (truthy : V -> bool) (halt : N -> list V -> St -> St) (pure : list N) (f g : fn),
+    dce_check pure f g = true ->
+    (forall l, memN l pure = true -> forall vs s, exists v, sem l vs s = Some (s, v)) ->
+    forall fuel args s,
+      behaves St V cval sem truthy halt fuel f args s <> RStuck St V ->
+      behaves St V cval sem truthy halt fuel g args s = behaves St V cval sem truthy halt fuel f args s.
+Proof. exact dce_validator_sound. Qed.
+Print Assumptions C03_dce_validator_sound.
+
+(* Control-flow simplification validator (blocks removed and renumbered, chains of blocks linked by
+   argument-less branches merged): every run of `after` that ends within its fuel is a run of `before`
+   (with some other fuel: `before` takes more block steps), for every interpretation. *)
+Theorem C03_cfg_simulation_sound :
+  forall (St V : Type) (cval : N -> V) (sem : N -> list V -> St -> option (St * V))
+         (truthy : V -> bool) (halt : N -> list V -> St -> St) (bmap : list nat) (f g : fn),
+    cfg_check bmap f g = true ->
+    forall fuel args s,
+      behaves St V cval sem truthy halt fuel g args s <> RFuel St V ->
+      exists fuel', behaves St V cval sem truthy halt fuel' f args s = behaves St V cval sem truthy halt fuel g args s.
+Proof. exact cfg_simulation_sound. Qed.
+Print Assumptions C03_cfg_simulation_sound.
+
+Definition d_before : fn :=
+  [ mkB [(0, 1)] [mkI 1 5 [OVal 0; OConst 3]; mkI 2 6 [OVal 0; OVal 0]; mkI 3 9 [OVal 2]] (TBr (1%nat, []));
+    mkB [] [mkI 4 5 [OVal 3; OVal 0]] (TBr (3%nat, [OVal 4]));
+    mkB [] [] (TRet 7 (OConst 1));
+    mkB [(5, 1)] [] (TRet 7 (OVal 5)) ].
+Definition d_after : fn :=      (* instruction 1 (label 5, pure) removed *)
+  [ mkB [(0, 1)] [mkI 2 6 [OVal 0; OVal 0]; mkI 3 9 [OVal 2]] (TBr (1%nat, []));
+    mkB [] [mkI 4 5 [OVal 3; OVal 0]] (TBr (3%nat, [OVal 4]));
+    mkB [] [] (TRet 7 (OConst 1));
+    mkB [(5, 1)] [] (TRet 7 (OVal 5)) ].
+Definition c_after : fn :=      (* dead block 2 removed, blocks 0 and 1 merged, block 3 renumbered *)
+  [ mkB [(0, 1)] [mkI 1 5 [OVal 0; OConst 3]; mkI 2 6 [OVal 0; OVal 0]; mkI 3 9 [OVal 2]; mkI 4 5 [OVal 3; OVal 0]] (TBr (1%nat, [OVal 4]));
+    mkB [(5, 1)] [] (TRet 7 (OVal 5)) ].
+Example C03_example_dce : dce_check [5; 6] d_before d_after = true /\ dce_check [6] d_before d_after = false
+  /\ dce_check [5; 6] d_before (d_after ++ []) = true.
+Proof. repeat split; vm_compute; reflexivity. Qed.
+(* removing instruction 2, whose result is still used by instruction 3, is rejected *)
+Example C03_example_dce_use :
+  dce_check [5; 6; 9]
+    d_before [ mkB [(0, 1)] [mkI 1 5 [OVal 0; OConst 3]; mkI 3 9 [OVal 2]] (TBr (1%nat, []));
+               mkB [] [mkI 4 5 [OVal 3; OVal 0]] (TBr (3%nat, [OVal 4]));
+               mkB [] [] (TRet 7 (OConst 1)); mkB [(5, 1)] [] (TRet 7 (OVal 5)) ] = false.
+Proof. vm_compute. reflexivity. Qed.
+Example C03_example_cfg : cfg_check [0%nat; 3%nat] d_before c_after = true /\ cfg_check [0%nat; 2%nat] d_before c_after = false.
+Proof. split; vm_compute; reflexivity. Qed.
 
 (* Non-vacuity: two bodies that differ only in value names are accepted; changing one operand, one
    constant or one label is rejected; and a concrete interpretation separates the rejected pair. *)
